@@ -380,7 +380,7 @@ fn check_system(rep: &mut Report, seed: u64, index: u64, tier: Tier, oracle_proc
 
 pub fn run(tier: Tier, seed: u64, replay: Option<serde_json::Value>) -> i32 {
     let mut rep = Report::new("C02", tier, seed, "translation_validation");
-    let n = tier.pick(160u64, 3000u64);
+    let n = tier.pick(160u64, 800u64);
     let mut indices: Vec<u64> = (0..n).collect();
     // operator probes: every safe variant, every 4th unsafe one; width 3 (quick), widths 3 and 4 (thorough)
     for pi in 0..probe_count() {
